@@ -37,7 +37,7 @@ def anchors():
 def main():
     ap = argparse.ArgumentParser()
     ap.add_argument("--n", type=int, default=300); ap.add_argument("--workers", type=int, default=5); ap.add_argument("--seed", type=int, default=1)
-    ap.add_argument("--out", default="mutsweep/results.jsonl"); ap.add_argument("--files"); ap.add_argument("--kinds")
+    ap.add_argument("--out", default="mutsweep/results.jsonl"); ap.add_argument("--files"); ap.add_argument("--kinds"); ap.add_argument("--only", help="earlier result file: re-run its survivors and errors")
     a = ap.parse_args()
     if not os.path.exists(GOMUT):
         rc, o = sh("go build -o %s ." % GOMUT, cwd=os.path.join(ROOT, "tools", "gomut"))
@@ -53,6 +53,14 @@ def main():
             sites.append(dict(file=f, index=int(i), line=int(line), kind=kind, desc=desc))
     rnd = random.Random(a.seed)
     rnd.shuffle(sites)
+    if a.only:
+        # re-run exactly the survivors / errors of an earlier result file
+        keep = set()
+        for l in open(os.path.join(ROOT, a.only)):
+            r = json.loads(l)
+            if r["outcome"].startswith(("survived", "error")):
+                keep.add((r["file"], r["index"]))
+        sites = [s for s in sites if (s["file"], s["index"]) in keep]
     done = set()
     out = os.path.join(ROOT, a.out)
     os.makedirs(os.path.dirname(out), exist_ok=True)
